@@ -593,14 +593,27 @@ package server
 //@   assumed
 //@   modifies nothing
 //@   ensures result == mgm(globs, s)
-//@ func scanWriter.testObject
-//@   assumed
+// MATCH on the scan writer: an object passes iff one of the patterns matches its id (SEARCH: its value); a match or
+// a mismatch never ends the scan (the range limits do that), only an error of the WHERE evaluation does.
+//@ ghost macro swSubject(sw, o) = ite(sw.matchValues, objStr(o), objID(o))
+//@ ghost macro gmOK(sw, o) = sw.globEverything || exists(i, 0, len(sw.globs), globMatches(sw.globs[i], swSubject(sw, o)))
+//@ func scanWriter.globMatch
+//@   requires sw != nil
 //@   modifies nothing
-//@   ensures ok == tOK(sw, o)
+//@   ensures [exact] ok == gmOK(sw, o)
+//@   ensures [never-ends-the-scan] keepGoing
+//@   loop 1 invariant forall(j, 0, idx1, !globMatches(sw.globs[j], val))
+//@ ghost macro tOKdef(sw, o) = gmOK(sw, o) && fOK(sw, o)
+//@ func scanWriter.testObject
+//@   requires sw != nil
+//@   modifies nothing
+//@   ensures [exact] ok == tOKdef(sw, o)
+//@   ensures [never-ends-the-scan] err == nil ==> keepGoing
+//@   ensures [ghost-def.tOK] ok == tOK(sw, o)
 //@ func scanWriter.fieldMatch
 //@   assumed
 //@   modifies nothing
-//@   ensures result0 == fOK(sw, o)
+//@   ensures result0 == fOK(sw, o) && (result1 != nil ==> !result0)
 //@ ghost macro fIn(cmd, fence, o) = o != nil && !fence.roam.on && ite(cmd == "within", gWithin(objGeo(o), fence.obj), ite(cmd == "nearby" || cmd == "intersects", gIntersects(objGeo(o), fence.obj), false))
 //@ func fenceMatchObject
 //@   requires fence != nil
@@ -759,3 +772,24 @@ package server
 //@   ensures [exists-iff-nonempty] ksNonEmpty(s)
 //@   ensures [one-collection-per-key] ksInj(s)
 //@   ensures [reply] result2 == nil && msg.OutputType == RESP ==> result0 == ite(lower(msg.Args[0]) != "renamenx", respSimple("OK"), respInt(ite(result1.updated, 1, 0)))
+
+// ---- several MATCH patterns: the scan range is the union of the patterns' ranges (C12) ---------------
+// Whatever lies inside the range glob.Parse gives for one of the patterns lies inside the range multiGlobParse
+// returns; with the limits soundness of Parse (proved in the glob package) no id matching any pattern is cut off.
+//@ func multiGlobParse
+//@   modifies nothing
+//@   ensures [union] forall(i, 0, len(globs), allstr(s, inLimits(parseLo(globs[i], desc), parseHi(globs[i], desc), desc, s) ==> inLimits(result[0], result[1], desc, s)))
+//@   loop 1 invariant len(limits) == 2 && forall(j, 0, idx1, allstr(s, inLimits(parseLo(globs[j], desc), parseHi(globs[j], desc), desc, s) ==> inLimits(limits[0], limits[1], desc, s)))
+//@   loop 1 invariant idx1 > 0 ==> !(limits[0] == "" && limits[1] == "")
+
+// ---- COUNT shortcut of SEARCH (C12: COUNT equals the number of items the same query returns as IDS) -------
+// SEARCH walks the string values of the collection; the shortcut may replace the walk only when no filter can reject
+// anything, and then the count is the number of string values (minus the cursor offset, not below zero).
+//@ func Server.cmdSearch
+//@   frame-by-effects
+//@   requires s != nil && msg != nil && len(msg.Args) > 0
+//@   modifies steps, perCall
+//@   at-call Collection.Count [shortcut-only-without-filters] len(sw.wheres) == 0 && len(sw.whereins) == 0 && len(sw.whereevals) == 0 && sw.globEverything && sw.output == outputCount
+//@   at-call Collection.StringCount [shortcut-only-without-filters] len(sw.wheres) == 0 && len(sw.whereins) == 0 && len(sw.whereevals) == 0 && sw.globEverything && sw.output == outputCount
+// (a cursor of 2^63 or more wraps in int(cursor); not claimed)
+//@   at-call scanWriter.writeFoot#1 [shortcut-count] sargs.cursor < 9223372036854775808 && ierr == nil && sw.col != nil && sw.output == outputCount && len(sw.wheres) == 0 && len(sw.whereins) == 0 && len(sw.whereevals) == 0 && sw.globEverything ==> sw.count == max(sw.col.nobjects - sargs.cursor, 0)
